@@ -10,7 +10,7 @@ use proptest::prelude::*;
 use serde::{Deserialize, Serialize};
 use std::cmp::Ordering;
 
-pub const RULE: &str = "generated pairs, triples and vectors of durations (plus structured pairs: century fields differing by one, straddling zero, exact negations, a+b = k*NPC) compared with the order / equality of their i128 counts; non-trivial = counts differ in sign, century fields differ by exactly 1, or a structured pair; distinct = distinct operand tuples (hash set, capped: lower bound)";
+pub const RULE: &str = "generated pairs, triples and vectors of durations (plus structured pairs: century fields differing by one, straddling zero, exact negations, a+b = k*NPC) each operand built through one of eight routes (five constructors, a negation, a sum, a difference), compared with the order / equality of their i128 counts; non-trivial = counts differ in sign, century fields differ by exactly 1, or a structured pair; distinct = distinct operand tuples (hash set, capped: lower bound)";
 
 pub const ASSUMPTIONS: &[&str] = &[
     "count := centuries*NPC + nanoseconds from to_parts()",
@@ -23,7 +23,8 @@ pub struct Pair {
     pub b: Dur,
     pub structured: bool,
     /// how each operand is built from its count: 0 from_parts, 1 from_total_nanoseconds,
-    /// 2 from_truncated_nanoseconds (when it fits), 3 an integer multiple of a unit (when it is one), 4 -(-x)
+    /// 2 from_truncated_nanoseconds (when it fits), 3 an integer multiple of a unit (when it is one), 4 -(-x),
+    /// 5 -(y) with y = -x, 6 (x - p) + p, 7 (x + p) - p
     #[serde(default)]
     pub route: (u8, u8),
 }
@@ -47,6 +48,18 @@ fn build(d: &Dur, route: u8) -> Duration {
             plain
         }
         4 if c > DMIN && c < DMAX => -(-plain),
+        // results of arithmetic: a single negation, a sum and a difference that have this count
+        5 if c > DMIN && c < DMAX => -Duration::from_total_nanoseconds(-c),
+        6 | 7 => {
+            let p = c.rem_euclid(1000) + 1;
+            if route == 6 && c - p > DMIN {
+                Duration::from_total_nanoseconds(c - p) + Duration::from_total_nanoseconds(p)
+            } else if route == 7 && c + p < DMAX {
+                Duration::from_total_nanoseconds(c + p) - Duration::from_total_nanoseconds(p)
+            } else {
+                plain
+            }
+        }
         _ => plain,
     }
 }
@@ -77,7 +90,7 @@ fn pair_strategy() -> BS<Pair> {
     let same_count = (prop_oneof![count_any(), (0usize..9, -40_000i128..=40_000).prop_map(|(u, k)| clamp(k * UNIT_NS[u]))], small_delta(1))
         .prop_map(|(c, d)| Pair { a: Dur::of_count(c), b: Dur::of_count(c + d), structured: true, route: (0, 0) })
         .boxed();
-    (wunion(vec![(4, free), (5, structured), (2, zero_x), (3, same_count)]), any::<bool>(), 0u8..5, 0u8..5)
+    (wunion(vec![(4, free), (5, structured), (2, zero_x), (3, same_count)]), any::<bool>(), 0u8..8, 0u8..8)
         .prop_map(|(p, sw, r1, r2)| if sw { Pair { a: p.b, b: p.a, structured: p.structured, route: (r1, r2) } } else { Pair { route: (r1, r2), ..p } })
         .boxed()
 }
@@ -125,6 +138,9 @@ fn pair_oracle(c: &Pair) -> Verdict {
         if count(s) == sum {
             ensure!(lib!(s > a) == (cb > 0), "a+b > a <=> b>0: {}", desc);
             ensure!(lib!(s < a) == (cb < 0), "a+b < a <=> b<0: {}", desc);
+            // the sum is a duration like any other: equal to, and ordered like, the value of the same count
+            let t = Duration::from_total_nanoseconds(sum);
+            ensure!(lib!(s == t) && lib!(s.cmp(&t)) == Ordering::Equal, "a+b = {:?} does not compare equal to the duration of the same count {:?}: {}", s.to_parts(), t.to_parts(), desc);
         }
     }
     let (ka, kb) = (ca.div_euclid(NPC), cb.div_euclid(NPC));
